@@ -16,7 +16,7 @@ import (
 func init() {
 	core.Register(&core.Prop{
 		ID: "C04",
-		Rule: "case = one random geometry of the 8 types (empty members first/last/in runs, collections nested to depth 4, coordinates from a pool with -0, ±Inf, ±MaxFloat64, subnormals) judged by Points/Len/Bounds against the harness flattening and min/max fold, " +
+		Rule: "case = one random geometry of the 8 types (1.2% carry one long path of 63..65537 vertices - lengths on both sides of 64, 256, 1024, 4096, 8192, 16384, 65536 - whose unique X/Y extreme sits at the first/last few positions or next to n/4, n/2, 3n/4 or a power of two; empty members first/last/in runs, collections nested to depth 4, coordinates from a pool with -0, ±Inf, ±MaxFloat64, subnormals) judged by Points/Len/Bounds against the harness flattening and min/max fold, " +
 			"or one pair/triple of boxes judged against the lattice laws; non-trivial = geometry containing at least one empty member next to a non-empty one, or a box pair that touches/overlaps/nests/is separated on exactly one axis; distinct by content hash",
 		Assumptions: []string{"NaN coordinates excluded (min/max of NaN is outside the property)", "only the canonical empty box (NewBounds) is used as 'empty'"},
 		Phases: []core.Phase{
@@ -35,7 +35,7 @@ func init() {
 		},
 		Run: run,
 		Floors: func(t string) map[string]int64 {
-			return map[string]int64{"geom.with_empty_member": 1000, "geom.empty_run>=2": 100, "geom.empty_collection": 50, "box.touching": 100, "box.empty_operand": 100, "box.sep_one_axis": 100, "box.extreme_extent": 500,
+			return map[string]int64{"geom.with_empty_member": 1000, "geom.empty_run>=2": 100, "geom.empty_collection": 50, "box.touching": 100, "box.empty_operand": 100, "box.sep_one_axis": 100, "box.extreme_extent": 500, "geom.long_path": 200, "geom.long_path>=4096": 60,
 				"type.Point": 10, "type.MultiPoint": 10, "type.LineString": 10, "type.MultiLineString": 10, "type.Polygon": 10, "type.MultiPolygon": 10, "type.GeometryCollection": 10, "type.*Bounds": 10}
 		},
 	})
@@ -143,6 +143,43 @@ func runGeom(c *core.Ctx) {
 	// all kinds evenly at top level
 	k := o.Kinds[r.Intn(len(o.Kinds))]
 	g := gen.RandGeomKind(r, o, k, 0)
+	var bigDesc map[string]interface{}
+	if r.Chance(0.012) {
+		// one long path (lengths on both sides of 64 ... 65536) whose unique X or Y extreme sits
+		// at a position next to a likely chunk boundary, wrapped in every container type
+		n := gen.BigLen(r)
+		pts := make([]geom.Point, n)
+		for i := range pts {
+			pts[i] = geom.Point{X: r.Range(-4, 4), Y: r.Range(-4, 4)}
+		}
+		at := gen.EdgePos(r, n)
+		ext := []geom.Point{{X: 25, Y: pts[at].Y}, {X: -25, Y: pts[at].Y}, {X: pts[at].X, Y: 30}, {X: pts[at].X, Y: -30}, {X: 25, Y: 30}}[r.Intn(5)]
+		pts[at] = ext
+		small := func() []geom.Point { return []geom.Point{{X: 1, Y: 1}, {X: 2, Y: 1}, {X: 1, Y: 2}} }
+		wrap := r.Intn(7)
+		switch wrap {
+		case 0:
+			g = geom.LineString(pts)
+		case 1:
+			g = geom.Polygon{pts}
+		case 2:
+			g = geom.Polygon{small(), pts}
+		case 3:
+			g = geom.MultiLineString{small(), pts, small()}
+		case 4:
+			g = geom.MultiPolygon{{small()}, {small(), pts}}
+		case 5:
+			g = geom.GeometryCollection{geom.Point{X: 0, Y: 0}, geom.GeometryCollection{geom.MultiLineString{pts}}}
+		default:
+			g = geom.MultiPoint(pts)
+		}
+		bigDesc = map[string]interface{}{"long_path_vertices": n, "extreme_vertex_index": at, "extreme_vertex": []float64{ext.X, ext.Y}, "container": fmt.Sprintf("%T (layout %d)", g, wrap),
+			"note": "other vertices uniform in [-4,4]^2; the replay regenerates the case from its seed"}
+		c.Count("geom.long_path")
+		if n >= 4096 {
+			c.Count("geom.long_path>=4096")
+		}
+	}
 	name := tn(g)
 	c.Count("type." + name)
 	want := gen.Flatten(g)
@@ -168,7 +205,12 @@ func runGeom(c *core.Ctx) {
 		c.Sample(map[string]interface{}{"geometry": gen.Dump(g), "expected_vertices": len(want)})
 	}
 	c.Eval()
-	detail := map[string]interface{}{"geometry": gen.Dump(g)}
+	var detail map[string]interface{}
+	if bigDesc != nil {
+		detail = bigDesc
+	} else {
+		detail = map[string]interface{}{"geometry": gen.Dump(g)}
+	}
 
 	// Len
 	var n int
